@@ -290,6 +290,24 @@ def s29(rng):
     return lt, cfg, h, True
 
 
+@scen("los/individual tabulated PDF with empty bins")
+def s32(rng):
+    cfg, h = base_cfg(rng, rng.choice(["DdtGaussian", "DdtGaussKin"]))
+    lt = "DdtGaussian"
+    nb = rng.choice([8, 12, 20])
+    edges = np.linspace(-0.1, 0.3, nb + 1)
+    pdf = np.array([rng.uniform(0.2, 1.0) for _ in range(nb)])
+    pdf[: rng.choice([1, 2, 3])] = 0.0                       # a PDF tabulated on a common grid: zero padding below the cut-off
+    if rng.random() < 0.7:
+        j = rng.randrange(nb // 2, nb - 2)                   # … and a gap between two modes
+        pdf[j: j + rng.choice([1, 2])] = 0.0
+    if rng.random() < 0.3:
+        pdf[-1] = 0.0
+    cfg.update(global_los_distribution=False, los_distribution_individual="PDF",
+               kwargs_los_individual=dict(bin_edges=edges, pdf_array=pdf))
+    return lt, cfg, h, True
+
+
 @scen("lambda_mst/very unlikely data (log L << -745)")
 def s26(rng):
     cfg, h = base_cfg(rng, "DdtGaussian")
@@ -393,6 +411,41 @@ def gev_ks_distance(case, gev):
     return float(kstest(draws, genextreme(c=gev["xi"], loc=gev["mean"], scale=gev["sigma"]).cdf).statistic)
 
 
+def pdf_declared(case):
+    cfg = case["cfg"]
+    if cfg.get("los_distribution_individual") == "PDF" and cfg.get("global_los_distribution", False) is False:
+        return cfg["kwargs_los_individual"]
+    return None
+
+
+def pdf_check(case, tab):
+    """draws of a tabulated line-of-sight population come from the declared histogram: none inside a bin of zero
+    probability (probability 0 under the declared law), bin frequencies within 6 sigma of the declared probabilities"""
+    from hierarc.Sampling.Distributions.los_distributions import LOSDistribution
+    cfg = case["cfg"]
+    los = LOSDistribution(global_los_distribution=False, los_distributions=cfg.get("los_distributions"),
+                          individual_distribution="PDF", kwargs_individual=cfg.get("kwargs_los_individual"))
+    np.random.seed(20261001)
+    n = 4000
+    draws = np.array([float(np.squeeze(los.draw_los(case["hyper"]["kwargs_los"]))) for _ in range(n)])
+    e = np.asarray(tab["bin_edges"], dtype=float)
+    p = np.asarray(tab["pdf_array"], dtype=float)
+    p = p / p.sum()
+    out = []
+    idx = np.clip(np.searchsorted(e, draws, side="right") - 1, 0, len(p) - 1)
+    eps = 1e-9 * (e[-1] - e[0])
+    inside_empty = [(float(x), int(j)) for x, j in zip(draws, idx) if p[j] == 0 and e[j] + eps < x < e[j + 1] - eps]
+    if inside_empty:
+        out.append("%d of %d draws of the tabulated line-of-sight population lie inside bins of zero probability (e.g. %r in bin %d)"
+                   % (len(inside_empty), n, inside_empty[0][0], inside_empty[0][1]))
+    cnt = np.bincount(idx, minlength=len(p)) / n
+    for j in range(len(p)):
+        if p[j] > 0 and abs(cnt[j] - p[j]) > 6 * math.sqrt(p[j] * (1 - p[j]) / n) + 1e-12:
+            out.append("bin %d of the tabulated line-of-sight population drawn with frequency %.4f, declared probability %.4f" % (j, cnt[j], p[j]))
+            break
+    return out
+
+
 def oracle(case, runs):
     """runs: two (out, rec) evaluations under different seeds"""
     fails = []
@@ -425,6 +478,9 @@ def oracle(case, runs):
             if d > 0.06:
                 fails.append("draws of the GEV line-of-sight population are not from the declared genextreme(c=xi=%r, loc=%r, scale=%r): "
                              "KS distance %.3f over 4000 draws" % (gev["xi"], gev["mean"], gev["sigma"], d))
+        tab = pdf_declared(case)
+        if tab is not None:
+            fails.extend(pdf_check(case, tab))
         # every draw of every evaluation (re-draws of truncated populations included) comes from a declared population
         bad = lc.undeclared_requests(case["cfg"], case["hyper"], r1)
         if bad:
